@@ -142,6 +142,11 @@ type world struct {
 	kpAddr string
 	kpMode string
 	rnd    *vh.Rand
+	// set by this world's kpasswd server when it answered with a re-encoded reflection (a world serves one scenario at a time): the
+	// reply's KRB-PRIV carries the request's ciphertext / is byte for byte the request's KRB-PRIV; the new password the request held
+	kpMu                              sync.Mutex
+	kpReflected, kpReflectedSameBytes bool
+	kpReflectedPw                     []byte
 }
 
 func newWorld(id int) (*world, error) {
@@ -185,6 +190,70 @@ func (w *world) serveKpasswd() {
 var lastNewPassword struct {
 	sync.Mutex
 	v []byte
+}
+
+// reflectedHows: ways in which the request's own KRB-PRIV comes back NOT byte for byte. None of them needs a key: EncryptedData's
+// etype and kvno are not covered by the ciphertext's integrity check, and the AP-REP is not bound to the KRB-PRIV. In every one the
+// ciphertext is the one the client made under its subkey, so that the message - ChangePasswdData with the NEW PASSWORD as user-data -
+// decrypts for the client. Whatever the client answers, the new password must not be in it.
+var reflectedHows = []string{"kvno-dropped", "kvno-changed", "kvno-zero", "kvno-added-or-same-rebuilt", "etype-changed", "aprep-garbage", "aprep-garbage-kvno-dropped",
+	"aprep-of-other-etype-kvno-changed", "cipher-in-longer-octet-string-encoding"}
+
+// reflectReencoded returns the KRB-PRIV and AP-REP of the reply, and whether the KRB-PRIV's ciphertext is the request's.
+func reflectReencoded(how string, priv kmsg.KRBPriv, privb, aprep []byte, rnd *vh.Rand) ([]byte, []byte, bool) {
+	e := kmsg.EncData{Etype: priv.Enc.Etype, Kvno: priv.Enc.Kvno, Cipher: priv.Enc.Cipher}
+	garbageAPRep := func(et int32) []byte {
+		return kmsg.APRep{Enc: kmsg.EncData{Etype: et, Cipher: rnd.Bytes(40 + rnd.Intn(40))}}.DER()
+	}
+	otherKvno := func() *uint32 {
+		v := uint32(2 + rnd.Intn(250))
+		if e.Kvno != nil && *e.Kvno == v {
+			v++
+		}
+		return &v
+	}
+	switch how {
+	case "kvno-dropped":
+		e.Kvno = nil
+	case "kvno-changed":
+		e.Kvno = otherKvno()
+	case "kvno-zero":
+		e.Kvno = kmsg.U32(0)
+	case "kvno-added-or-same-rebuilt":
+		// the reference encoder's rendering of the same fields; a kvno is added where the request had none
+		if e.Kvno == nil {
+			e.Kvno = otherKvno()
+		}
+	case "etype-changed":
+		for _, o := range kcrypto.Etypes {
+			if o != e.Etype && kcrypto.KeyLen(o) == kcrypto.KeyLen(e.Etype) {
+				e.Etype = o
+			}
+		}
+		if e.Etype == priv.Enc.Etype {
+			e.Etype = 18 // no etype of the same key size: any other one
+		}
+	case "aprep-garbage":
+		aprep = garbageAPRep(e.Etype)
+		return privb, aprep, true
+	case "aprep-garbage-kvno-dropped":
+		aprep = garbageAPRep(e.Etype)
+		e.Kvno = nil
+	case "aprep-of-other-etype-kvno-changed":
+		aprep = garbageAPRep(23)
+		e.Kvno = otherKvno()
+	case "cipher-in-longer-octet-string-encoding":
+		// same fields, the OCTET STRING's length in the long form with a leading zero (BER, not DER): a decoder that takes it yields the same ciphertext
+		l := len(e.Cipher)
+		oct := append([]byte{0x04, 0x83, 0, byte(l >> 8), byte(l)}, e.Cipher...)
+		var kv []byte
+		if e.Kvno != nil {
+			kv = der.Ctx(1, der.Int(int64(*e.Kvno)))
+		}
+		ed := der.Seq(der.Ctx(0, der.Int(int64(e.Etype))), kv, der.Ctx(2, oct))
+		return der.App(21, der.Seq(der.Ctx(0, der.Int(5)), der.Ctx(1, der.Int(21)), der.Ctx(3, ed))), aprep, true
+	}
+	return kmsg.KRBPriv{Enc: e}.DER(), aprep, true
 }
 
 func (w *world) kpasswdReply(b []byte) []byte {
@@ -262,6 +331,20 @@ func (w *world) kpasswdReply(b []byte) []byte {
 	earp := kmsg.EncAPRepPart{CTime: au.CTime, Cusec: au.Cusec}
 	ac, _ := kcrypto.EncryptConf(etp.Key.Type, etp.Key.Value, 12, earp.DER(), w.rnd.Bytes(kcrypto.ConfLen(etp.Key.Type)))
 	aprep := kmsg.APRep{Enc: kmsg.EncData{Etype: etp.Key.Type, Cipher: ac}}.DER()
+	if how, ok := strings.CutPrefix(w.kpMode, "echo-"); ok {
+		// the reflection is not byte for byte (see reflectedHows): the ciphertext - all that matters to decryption - is the request's
+		var sameCipher bool
+		privRep, aprep, sameCipher = reflectReencoded(how, priv, privb, aprep, w.rnd)
+		w.kpMu.Lock()
+		w.kpReflected, w.kpReflectedSameBytes = sameCipher, bytes.Equal(privRep, privb)
+		w.kpReflectedPw = nil
+		if n, e := der.ParseOne(ep.UserData); err == nil && e == nil {
+			if f := n.Field(0); f != nil && len(f.Children) == 1 {
+				w.kpReflectedPw = append([]byte{}, f.Children[0].Content...)
+			}
+		}
+		w.kpMu.Unlock()
+	}
 	out := make([]byte, 6)
 	binary.BigEndian.PutUint16(out[2:], 1)
 	binary.BigEndian.PutUint16(out[4:], uint16(len(aprep)))
@@ -293,7 +376,7 @@ func TestProp(t *testing.T) {
 	}
 	r.SetRule("high-entropy markers are planted as client password, client and service keytab keys, krbtgt keys (KDC side only), TGT and service session keys (read from the simulated KDC's issue log), kpasswd subkey-protected new password; after every scenario all observed outputs are scanned for every secret in raw, hex, HEX, base64/base64url (three alignments) and UTF-16LE form. " +
 		"Surfaces: Client.Print/Diagnostics, Credentials/Settings/Config/Keytab JSON, Credentials gob, client and service logger output, Error()/%+v/%#v of every returned error, Marshal() of Ticket/AP-REQ/AS-REP/TGS-REP/KRB-PRIV after decryption or verification, HTTP responses of the SPNEGO handler. " +
-		"Scenarios: logins (password/keytab x etypes x pre-auth policies) with service-ticket requests, wrong password, forced KDC errors, unreachable KDC, password change (success / error reply), service-side verification of valid and defective AP-REQs, truncation of secret-bearing keytab and ccache files at every offset plus seeded single-byte corruptions, Keytab.AddEntry; damaged (not truncated) keytab and ccache files - every 16/32 bit integer position rewritten with boundary and in-file length values, v4 header fields, addresses, authdata and configuration entries present - through Unmarshal, keytab.Load, LoadCCache, NewFromCCache and the client dumps; Basic authentication values that are not well-formed base64 of user:password (19 shapes x 3 user forms); keytab clients whose keytab holds entries of other principals, other realms and the login realm in another letter case, with and without the entry of the login principal, Diagnostics before and after login. distinct = scenario; non-trivial = scenario that produced >= 1 scanned surface")
+		"Scenarios: logins (password/keytab x etypes x pre-auth policies) with service-ticket requests, wrong password, forced KDC errors, unreachable KDC, password change (success / error reply), service-side verification of valid and defective AP-REQs, truncation of secret-bearing keytab and ccache files at every offset plus seeded single-byte corruptions, Keytab.AddEntry; damaged (not truncated) keytab and ccache files - every 16/32 bit integer position rewritten with boundary and in-file length values, v4 header fields, addresses, authdata and configuration entries present - through Unmarshal, keytab.Load, LoadCCache, NewFromCCache and the client dumps; Basic authentication values that are not well-formed base64 of user:password (19 shapes x 3 user forms); keytab clients whose keytab holds entries of other principals, other realms and the login realm in another letter case, with and without the entry of the login principal, Diagnostics before and after login; password changes answered with the request's own KRB-PRIV, byte for byte and re-encoded (kvno dropped / changed / zero / added, etype changed, non-DER length form, AP-REP replaced by one that no key made); password clients given KDC hints (ETYPE-INFO2, ETYPE-INFO, PW-SALT in the e-data of PREAUTH_REQUIRED / PREAUTH_FAILED and in the AS-REP padata, and handed directly to GetKeyFromPassword, Client.Key and ASRep.DecryptEncPart) of 34 shapes x 6 etypes: string-to-key parameters of 0..16 bytes, parameters for etypes that take none, salts absent / empty / long / with high bytes / of another principal, other and unknown etypes, several / no entries, truncated and random encodings, disagreeing hints. distinct = scenario; non-trivial = scenario that produced >= 1 scanned surface")
 	r.Assume("Keytab.String()/entry.String() print keys by design (klist -K view) and are not among the property's surfaces: not scanned; a key's type number or length is not a leak")
 	r.Assume("dumps (not errors) made from a damaged file that still parses are judged only when the reference reader parses it too and places no planted key inside a name, address, authdata, ticket or header field: otherwise the file itself labels key bytes as something else (counted as observe_damaged_file_*)")
 	r.Assume("the scanner's own self-test plants each encoding at 7 alignments and must find every one (run at start)")
@@ -341,6 +424,29 @@ func TestProp(t *testing.T) {
 			}
 		}
 	}
+	// A2: password changes answered with the request's own KRB-PRIV re-encoded (reflectedHows); the pre-auth policy rotates
+	if reflectedKpasswdReply {
+		for rep := 0; rep < reps; rep++ {
+			for ei, et := range kcrypto.Etypes {
+				for hi, how := range reflectedHows {
+					et, rep := et, rep
+					pol := []string{"none", "info2", "info+pwsalt"}[(ei+hi+rep)%3]
+					variant := "chgpw-reflected-" + how
+					ck := fmt.Sprintf("client/pw/et=%d/%s/%s/%d", et, pol, variant, rep)
+					w := worlds[si%nw]
+					si++
+					if !r.Mine(ck) {
+						continue
+					}
+					add(func() { clientScenario(r, w, ck, "pw", et, pol, variant) })
+				}
+			}
+		}
+		r.Require("kpasswd_reflections_reencoded", 45)
+		r.Require("kpasswd_reflections_reencoded_refused_or_failed", 45)
+	}
+	// I: KDC hints (ETYPE-INFO2, ETYPE-INFO, PW-SALT) of unusual and malformed shapes given to password clients
+	hintFamily(r, add, worlds, &si, reps)
 	// G: the Kerberos Basic authenticator, which is handed the password in the clear
 	for rep := 0; rep < reps; rep++ {
 		for _, et := range []int32{18, 17, 23} {
@@ -574,6 +680,12 @@ func clientScenario(r *vh.Run, w *world, ck, kind string, et int32, pol, variant
 				if variant == "chgpw-reflected" {
 					w.kpMode = "echo"
 				}
+				if how, isRe := strings.CutPrefix(variant, "chgpw-reflected-"); isRe {
+					w.kpMode = "echo-" + how
+				}
+				w.kpMu.Lock()
+				w.kpReflected, w.kpReflectedSameBytes, w.kpReflectedPw = false, false, nil
+				w.kpMu.Unlock()
 				ok, err := cl.ChangePasswd(newPw)
 				o.err("ChangePasswd", err)
 				lastNewPassword.Lock()
@@ -581,7 +693,27 @@ func clientScenario(r *vh.Run, w *world, ck, kind string, et int32, pol, variant
 					r.Inc("password_changes_observed")
 				}
 				lastNewPassword.Unlock()
-				_ = ok
+				w.kpMu.Lock()
+				reflectedThis := w.kpReflected && string(w.kpReflectedPw) == newPw
+				if reflectedThis {
+					// the server did send this request's ciphertext back in another encoding
+					r.Inc("kpasswd_reflections_reencoded")
+					r.Inc("kpasswd_reflection_" + strings.TrimPrefix(variant, "chgpw-reflected-"))
+					if w.kpReflectedSameBytes {
+						r.Inc("observe_kpasswd_reflection_reencoding_gave_the_same_bytes")
+					}
+					switch {
+					case err != nil:
+						r.Inc("kpasswd_reflections_reencoded_refused_or_failed")
+					case ok:
+						// the statement is about leaks only: whether a reflected request may pass for a successful change is not judged here
+						r.Inc("observe_kpasswd_reflection_taken_for_success")
+					}
+				}
+				if strings.HasPrefix(variant, "chgpw-reflected-") && !reflectedThis {
+					r.Inc(fmt.Sprintf("observe_kpasswd_reflection_not_made_et%d", et))
+				}
+				w.kpMu.Unlock()
 			}
 			// marshal-after-decrypt of the replies the KDC sent
 			for _, kindRep := range []string{"AS", "TGS"} {
